@@ -20,6 +20,7 @@ func init() {
 		c.R.Rule("C05/ORDER", "no SDP / format parser lets the parsed value depend on map iteration order (order-dependent failures are reported as observations: the property speaks of 'a description or an error')", 4)
 		mapOrderRule(c, "C05/ORDER", []string{"pkg/format", "pkg/description", "pkg/sdpunmarshaler"}, false)
 		c05SDPState(c)
+		c05AttrsPerFormat(c)
 		noPanicFor(c, "C05")
 	}
 }
